@@ -35,29 +35,96 @@ FRAG02: Dict[str, bool] = {}  # the same for C02's fragment (ShowFrag.case_in_F0
 FRAG: Dict[str, bool] = {}   # canonical case text -> the proved-fragment flag computed in Coq (ShowFrag.case_in_F01)
 
 
+DEPCLS: Dict[str, List[str]] = {}   # canonical case text -> finding classes of a case with generated variables (computed in Coq)
+DEP_ISSUES: List[str] = []          # cross-check failures of the dependent Spec (turned into obligations by run_check)
+DEP_STATE: Dict[str, Any] = {"level": None, "log": ""}
+
+
+def is_dep(c: dict) -> bool:
+    return bool(c.get("flat") or c.get("sub"))
+
+
+def dep_level() -> int:
+    """what is available for cases with generated variables (flatten / nested sub-queries):
+    2 = model + Spec + proved-fragment flag (Eql/ShowDepFrag.vo), 1 = model + Spec, 0 = Spec only, -1 = nothing"""
+    if DEP_STATE["level"] is None:
+        lvl, logs = -1, []
+        for k, tgt in ((2, "Eql/ShowDepFrag.vo"), (1, "Eql/ShowDep.vo"), (0, "Eql/ShowDepSpec.vo")):
+            ok, log = core.coq_make([tgt])
+            if ok:
+                lvl = k
+                break
+            logs.append(f"{tgt}: {core.first_error(log)}")
+        DEP_STATE["level"], DEP_STATE["log"] = lvl, "; ".join(logs)
+    return DEP_STATE["level"]
+
+
 def classes_of(c: dict) -> List[str]:
-    return [] if (c.get("flat") or c.get("sub")) else eqlgen.classes(c)
+    return DEPCLS.get(case_key(c), []) if is_dep(c) else eqlgen.classes(c)
 
 
 def case_key(c: dict) -> str:
     return json.dumps(c, sort_keys=True)
 
 
+def coq_rows_dep(prop: str, cases: List[dict], model_ok: bool) -> List[Tuple[Optional[list], list]]:
+    """cases with generated variables: (model rows or None, Spec rows) from Eql/EvalDep.v / Eql/EvalDepSpec.v; records the
+    Coq-computed fragment flag (ShowDepFrag.dcase_in_FD) and finding class, and cross-checks the Spec's rows against the
+    first-order reading of eqlgen.spec_case evaluated by the plain Spec (Eql/Sat.v)"""
+    if not cases:
+        return []
+    lvl = dep_level() if model_ok else min(dep_level(), 0)
+    terms = [eqlgen.g_case_dep(c) for c in cases]
+    cross = core.coq_values(prop, eqlgen.SPEC_ONLY_HEADER, [f"spec_rows ({eqlgen.g_case(eqlgen.spec_case(c))})" for c in cases],
+                            chunk=120, tag="depx")
+    out: List[Tuple[Optional[list], list]] = []
+    if lvl < 0:
+        for c, x in zip(cases, cross):
+            FRAG[case_key(c)] = FRAG02[case_key(c)] = False
+            out.append((None, x))
+        return out
+    if lvl == 2:
+        vals = core.coq_values(prop, eqlgen.DEP_FRAG_HEADER, [f"rows_dep {t}" for t in terms], chunk=100, tag="dep")
+    elif lvl == 1:
+        vals = core.coq_values(prop, eqlgen.DEP_HEADER, [f"SL [dmodel_rows {t}; dspec_rows {t}; SB false; SB (dspec_wf {t}); SB false]" for t in terms], chunk=100, tag="dep")
+    else:
+        vals = core.coq_values(prop, eqlgen.DEP_SPEC_ONLY_HEADER, [f"SL [SL []; dspec_rows {t}; SB false; SB (dspec_wf {t}); SB false]" for t in terms], chunk=100, tag="dep")
+    for c, v, x in zip(cases, vals, cross):
+        k = case_key(c)
+        FRAG[k] = bool(v[2])
+        FRAG02[k] = False
+        # the excluded class: a variable may be left without a value -- with flatten that is finding C01-h2, with a
+        # sub-query (or a plain variable) over nothing C01-h
+        DEPCLS[k] = ([("K_emptyflat" if c.get("flat") else "K_emptydom")] if v[4] else [])
+        if not v[3]:
+            DEP_ISSUES.append(f"declarations not in dependency order / quantified variable not scoped (executable Spec not covered by C01b_spec_exec): {k[:400]}")
+        if view(v[1], "set") != view(x, "set") and not eqlgen.flat_over_twins(c):
+            DEP_ISSUES.append(f"Spec rows of Eql/EvalDepSpec.v differ from the first-order reading spec_case: {k[:600]} dep={v[1]} spec_case={x}")
+        out.append((v[0] if lvl >= 1 else None, v[1]))
+    return out
+
+
 def coq_rows(prop: str, cases: List[dict], model_ok: bool) -> List[Tuple[Optional[list], list]]:
     """(model rows or None, spec rows) per case; also records the Coq-computed fragment flag in FRAG"""
-    # a case with flattened collections has no model (Flatten is not in Eql/Eval.v): its Spec is the first-order reading
-    # of eqlgen.spec_case, it is outside every proved fragment, and it is compared implementation vs Spec only
+    # cases with flattened collections / nested sub-queries are evaluated by the generalised model (Eql/EvalDep.v) and its
+    # Spec (Eql/EvalDepSpec.v); their proved fragment is the flag ShowDepFrag.dcase_in_FD (theorem C01b_fragment_flag)
+    dep_idx = [i for i, c in enumerate(cases) if is_dep(c)]
+    plain_idx = [i for i, c in enumerate(cases) if not is_dep(c)]
+    res: List[Any] = [None] * len(cases)
+    for i, r in zip(dep_idx, coq_rows_dep(prop, [cases[i] for i in dep_idx], model_ok)):
+        res[i] = r
+    plain = [cases[i] for i in plain_idx]
     if model_ok:
-        vals = core.coq_values(prop, eqlgen.HEADER, [f"rows_and_frags ({eqlgen.g_case(eqlgen.spec_case(c))})" for c in cases], chunk=120)
-        out = []
-        for c, v in zip(cases, vals):
-            flat = bool(c.get("flat") or c.get("sub"))
-            FRAG[case_key(c)] = bool(v[2]) and not flat
-            FRAG02[case_key(c)] = bool(v[3]) and not flat
-            out.append((None if flat else v[0], v[1]))
-        return out
-    vals = core.coq_values(prop, eqlgen.SPEC_ONLY_HEADER, [f"spec_rows ({eqlgen.g_case(eqlgen.spec_case(c))})" for c in cases], chunk=120)
-    return [(None, v) for v in vals]
+        vals = core.coq_values(prop, eqlgen.HEADER, [f"rows_and_frags ({eqlgen.g_case(c)})" for c in plain], chunk=120) if plain else []
+        for i, c, v in zip(plain_idx, plain, vals):
+            FRAG[case_key(c)] = bool(v[2])
+            FRAG02[case_key(c)] = bool(v[3])
+            res[i] = (v[0], v[1])
+        return res
+    vals = core.coq_values(prop, eqlgen.SPEC_ONLY_HEADER, [f"spec_rows ({eqlgen.g_case(c)})" for c in plain], chunk=120) if plain else []
+    for i, v in zip(plain_idx, vals):
+        res[i] = (None, v)
+    return res
 
 
 def view(rows, mode: str):
@@ -161,7 +228,7 @@ def run_check(prop: str, tier: str, seed: int, replay: Optional[dict], *, profil
               n_thorough: int, targets: List[str], in_fragment: Callable[[dict], bool], modelled_classes: List[str],
               in_scope: Callable[[dict], bool] = lambda c: True,
               trusted: List[str], assume: List[str], rule: str, level: str = "proof",
-              extra_streams: Sequence[Callable[[Any, Any, str], None]] = ()) -> int:
+              extra_streams: Sequence[Callable[[Any, Any, str], None]] = (), dep_prop: Optional[str] = None) -> int:
     rep = Report(prop, tier, seed, level)
     rep.trusted = core.COQ_TRUSTED + trusted
     rep.assume = assume
@@ -206,10 +273,32 @@ def run_check(prop: str, tier: str, seed: int, replay: Optional[dict], *, profil
         ok_show, log = core.coq_make(["Eql/Show.vo", "Eql/ShowFrag.vo"])
         rep.oblige("build:model-printer", ok_show, "" if ok_show else core.first_error(log))
         model_ok = ok_show
+    if dep_prop is not None:
+        # the theorems about generated variables (flatten / nested sub-queries): Props/<dep_prop>.v, built and its
+        # Print Assumptions collected like the main property file; kept apart so that the evaluator model of the ordinary
+        # cases stays available when these proofs break
+        ok_dep, log = core.coq_make([f"Props/{dep_prop}.vo"])
+        rep.oblige(f"build:Props/{dep_prop}.vo", ok_dep, "" if ok_dep else core.first_error(log))
+        if ok_dep:
+            ok_a, ass, out = core.print_assumptions(dep_prop)
+            if not ok_a:
+                rep.oblige(f"props:{dep_prop}", False, core.first_error(out))
+            else:
+                rep.assumptions = dict(rep.assumptions, **ass)
+                for thm in core.theorem_names(dep_prop):
+                    a = ass.get(thm)
+                    if a is not None:
+                        rep.oblige(f"theorem:{thm}", a.startswith("Closed under the global context"), a[:300])
+            rep.checker_cmd = (rep.checker_cmd or "") + f" && make -f Makefile.coq Props/{dep_prop}.vo && coqc -Q . Krrood Props/{dep_prop}.v"
+        lvl = dep_level()
+        rep.oblige("build:dep-model-printer (Eql/ShowDepFrag.vo: model, Spec and fragment flag for flatten / sub-query cases)", lvl == 2,
+                   "" if lvl == 2 else f"available level {lvl} (1 = model + Spec, 0 = Spec only): {DEP_STATE['log']}")
     if not ok_spec:
         return rep.finish()
     if model_ok and tier == "thorough":
         core.coqchk(rep, prop)
+        if dep_prop is not None and dep_level() == 2:
+            core.coqchk(rep, dep_prop)
 
     findings = core.load_findings(prop)
     open_classes = {f.cls: f for f in findings if f.kind == "open"}
@@ -233,6 +322,12 @@ def run_check(prop: str, tier: str, seed: int, replay: Optional[dict], *, profil
             prof = profile
             if profile == "c01+quant":
                 prof = "quant" if i % 4 == 3 else ("flat" if i % 8 == 1 else ("subq" if i % 8 == 5 else "c01"))
+                if i % 32 == 9:
+                    prof = "flat0"      # flattened collections that may be empty (finding class K_emptyflat, three-way)
+                elif i % 32 == 13:
+                    prof = "subq0"      # sub-queries that may have no answer (finding class K_emptydom)
+                elif i % 32 == 17:
+                    prof = "flatT"      # collections of value-equal but distinct objects (seeded C11-D)
             cases.append(eqlgen.gen_case(rng.fork(i), prof, extras=True))
             origin.append(f"gen:{i}")
 
@@ -244,8 +339,10 @@ def run_check(prop: str, tier: str, seed: int, replay: Optional[dict], *, profil
     kf_counts: Dict[str, int] = {}
     bad: List[Tuple[dict, Any, Any, Any, str]] = []
     stale_model = 0
+    dep_stats = {"cases": 0, "in_fragment": 0, "model_eq_impl": 0, "seq_model_eq_impl": 0, "quantified": 0}
+    dep_model_bad: List[str] = []
     for c, o, i, (m, s) in zip(cases, origin, impl, ms):
-        flat = bool(c.get("flat") or c.get("sub"))
+        flat = is_dep(c)
         cls = classes_of(c)
         infrag = in_fragment(c)
         dup = any(len(d) != len(set(d)) for d in c["doms"].values())
@@ -253,6 +350,9 @@ def run_check(prop: str, tier: str, seed: int, replay: Optional[dict], *, profil
             kind = "flatten" if c.get("flat") else "subquery"
             dist[kind + "_cases"] = dist.get(kind + "_cases", 0) + 1
             dist[kind + "_nonempty"] = dist.get(kind + "_nonempty", 0) + int(bool(s))
+            dep_stats["cases"] += 1
+            dep_stats["in_fragment"] += int(infrag)
+            dep_stats["quantified"] += int(eqlgen.has_quant(c["cond"]))
         nontrivial = bool(s) and c["cond"] is not None
         rep.count(json.dumps(c, sort_keys=True), nontrivial)
         for k, v in eqlgen.stats(eqlgen.spec_case(c)).items():
@@ -267,6 +367,10 @@ def run_check(prop: str, tier: str, seed: int, replay: Optional[dict], *, profil
         mv = view(m, mode) if m is not None else None
         if m is not None and m == i:
             dist["seq_model_eq_impl"] += 1
+            if flat:
+                dep_stats["seq_model_eq_impl"] += 1
+        if flat and mv is not None and mv == iv:
+            dep_stats["model_eq_impl"] += 1
         if not in_scope(c):
             # outside what the property speaks about: only the model/implementation tie is observed
             dist["out_of_scope"] = dist.get("out_of_scope", 0) + 1
@@ -276,7 +380,10 @@ def run_check(prop: str, tier: str, seed: int, replay: Optional[dict], *, profil
         if iv == sv:
             if mv is not None and mv != sv and infrag:
                 # theorem says model = spec inside the fragment: cannot happen unless the harness mis-evaluates
-                rep.oblige("correspondence:model-in-fragment", False, f"model differs from impl = spec on {o}")
+                if flat:
+                    dep_model_bad.append(f"model differs from impl = spec inside the fragment on {o}: {case_key(c)[:500]}")
+                else:
+                    rep.oblige("correspondence:model-in-fragment", False, f"model differs from impl = spec on {o}")
             elif mv is not None and mv != sv:
                 stale_model += 1
             continue
@@ -287,7 +394,19 @@ def run_check(prop: str, tier: str, seed: int, replay: Optional[dict], *, profil
                 for k in hit:
                     kf_counts[k] = kf_counts.get(k, 0) + 1
                 continue
+        if flat and infrag and mv is not None and mv != iv:
+            # inside the fragment the model meets the Spec (C01b_fragment_flag), the implementation does not: the model is
+            # no longer what the code does (the disagreement itself is reported below as a violation)
+            dep_model_bad.append(f"impl differs from model = spec inside the fragment on {o}")
         bad.append((c, i, m, s, o))
+    if dep_stats["cases"]:
+        rep.oblige("correspondence:model-dep", not dep_model_bad,
+                   (f"{dep_stats['model_eq_impl']} of {dep_stats['cases']} flatten / sub-query cases: model rows = implementation rows "
+                    f"(as sequences: {dep_stats['seq_model_eq_impl']}); {dep_stats['in_fragment']} inside the proved fragment flag")
+                   if not dep_model_bad else "; ".join(dep_model_bad[:3]))
+        rep.oblige("correspondence:dep-spec = spec_case (Eql/EvalDepSpec.v's rows equal the first-order reading evaluated by Eql/Sat.v; "
+                   "declarations well-formed)", not DEP_ISSUES, "; ".join(DEP_ISSUES[:3]))
+        rep.extra["dependent_variable_cases"] = dep_stats
     if stale_model:
         rep.note(f"{stale_model} cases outside the fragment where impl = spec but the model differs (a listed finding appears repaired there)")
 
